@@ -168,6 +168,11 @@ def rule_set_pilot_table(ck, rid="C13.R1"):
     bad_end = [r for r in rej if r.end != "raise"]
     ck.require(not bad_end, rid, sp, bad_end[0].describe(160) if bad_end else "rejecting paths", ok="every rejecting path raises",
                bad="a path on which _valid_rate(pilot) is false returns normally: the invalid pilot is silently dropped", sink="table:reject-raise")
+    # "accepts a pilot exactly when it lies in the allowable set": a path that returns normally has asked the validity predicate
+    unasked = [r for r in rows if r.fact(valid) is None and r.end != "raise"]
+    ck.require(not unasked, rid, sp, unasked[0].describe(160) if unasked else "returning paths", ok="every returning path has validated the pilot",
+               bad="a path returns normally without `_valid_rate(pilot)` having been asked: a pilot outside the allowable set is accepted silently "
+                   "(the stored pilot it may be compared with is not itself a validated value at construction)", sink="table:unvalidated-return")
     # overrides in subclasses must go through the base implementation on every path
     for sub in repo.subclasses("BaseEVSE"):
         m = sub.methods.get("set_pilot")
@@ -496,3 +501,9 @@ def run(ck):
     # what is advertised stays truthful only if no scheduler can edit the network's cache through an object it was handed
     from .c05 import rule_escape
     ck.attempt(rule_escape, rid="C13.R7")
+    # the advertised limits are cached per position: a dump / restore that permutes the station mapping hands every station the limits of another
+    from .c09 import rule_station_order_roundtrip
+    ck.attempt(rule_station_order_roundtrip, rid="C13.R9")
+    # "every value it advertises is itself accepted" also after limits changed: nothing advertised comes from a memo on the interface
+    from .c05 import rule_stateless_view
+    ck.attempt(rule_stateless_view, rid="C13.R10")
